@@ -171,6 +171,8 @@ struct Outcome {
     sheets: Vec<Value>,
     steps: u64,
     checks: u64,
+    /// unit driver: the generator was reset after a session with at least one loss and used again
+    session_break_after_a_loss: bool,
 }
 
 const N_INSTR: usize = 4;
@@ -196,6 +198,11 @@ fn run_unit(fills: &[Fill]) -> Result<Outcome, V> {
     let mut tear = TearSheetGenerator::init(fixtures::t0());
     let mut exits = vec![];
     let mut steps = 0;
+    // every third history has a SESSION BREAK: after the 3rd closed position the generator is `reset` (public API:
+    // a new session starts) and the tear sheet is that of the closed positions since
+    let session_break = fills.len() % 3 == 1;
+    let mut closed = 0usize;
+    let mut lost_before_break = false;
     for (idx, f) in fills.iter().enumerate() {
         let tr = mk_trade(f, idx, 0u64);
         let ex = catch(|| pm.update_from_trade(&tr)).map_err(|m| ("panic_in_position_update", m))?;
@@ -203,6 +210,17 @@ fn run_unit(fills: &[Fill]) -> Result<Outcome, V> {
         if let Some(ex) = ex {
             catch(|| tear.update_from_position(&ex)).map_err(|m| ("panic_in_tear_sheet_update", format!("exit {ex:?}: {m}")))?;
             exits.push(exit_of(&ex));
+            closed += 1;
+            if session_break && closed == 3 {
+                // the report of the first session is judged, then the second session starts from scratch
+                let sheet = catch(|| tear.generate(Decimal::ZERO, Daily)).map_err(|m| ("panic_in_tear_sheet_generate", m))?;
+                judge_sheet("TearSheetGenerator (first session, before reset)", &sheet, &exits)?;
+                lost_before_break = exits.iter().any(|x| d(&x.pnl).is_sign_negative() && !d(&x.pnl).is_zero());
+                catch(|| tear.reset(ex.time_exit)).map_err(|m| ("panic_in_tear_sheet_update", format!("reset: {m}")))?;
+                exits.clear();
+                let empty = catch(|| tear.generate(Decimal::ZERO, Daily)).map_err(|m| ("panic_in_tear_sheet_generate", m))?;
+                judge_sheet("TearSheetGenerator (right after reset: a session without closed positions)", &empty, &exits)?;
+            }
             // the generator is persistable state: every 4th exit the run continues on a copy restored from JSON
             if exits.len() % 4 == 0 {
                 let back: TearSheetGenerator = serde_json::to_string(&tear).ok().and_then(|t| serde_json::from_str(&t).ok()).ok_or(("tear_sheet_generator_changed_by_persisting_and_restoring", "serde_json round trip failed".to_string()))?;
@@ -214,8 +232,8 @@ fn run_unit(fills: &[Fill]) -> Result<Outcome, V> {
         }
     }
     let sheet = catch(|| tear.generate(Decimal::ZERO, Daily)).map_err(|m| ("panic_in_tear_sheet_generate", m))?;
-    let checks = judge_sheet("TearSheetGenerator", &sheet, &exits)?;
-    Ok(Outcome { exits_per_instr: vec![exits], sheets: vec![sheet_json(&sheet)], steps, checks })
+    let checks = judge_sheet(if session_break && closed >= 3 { "TearSheetGenerator (second session, after reset)" } else { "TearSheetGenerator" }, &sheet, &exits)?;
+    Ok(Outcome { exits_per_instr: vec![exits], sheets: vec![sheet_json(&sheet)], steps, checks, session_break_after_a_loss: lost_before_break })
 }
 
 /// Driver (ii): engine, fills spread over 4 instruments on 2 exchanges, plus balance snapshots.
@@ -329,7 +347,7 @@ fn run_engine(fills: &[Fill]) -> Result<Outcome, V> {
             return Err(("maintained_trading_summary_entry_reflects_another_history", format!("asset {a} {key:?}: balance_end={got:?} expected {:?}", last_balance[a])));
         }
     }
-    Ok(Outcome { exits_per_instr: exits, sheets, steps, checks })
+    Ok(Outcome { exits_per_instr: exits, sheets, steps, checks, session_break_after_a_loss: false })
 }
 
 fn gen_fills(rng: &mut Rng, n_instr: usize) -> Vec<Fill> {
@@ -394,6 +412,9 @@ fn execute(fills: &[Fill], engine: bool, report: &mut Report, log: &LogSink) {
         Ok(out) => {
             report.events_observed += out.steps;
             report.oracle_checks += out.checks;
+            if out.session_break_after_a_loss {
+                report.cover("generator_reset_after_a_session_with_a_loss_and_used_again");
+            }
             let all: Vec<&Exit> = out.exits_per_instr.iter().flatten().collect();
             let h = fnv1a(format!("{engine}{all:?}").as_bytes());
             let mut any_nontrivial = false;
@@ -479,7 +500,7 @@ fn main() {
     });
     log.flush();
     if args.tier != "miri" {
-        for c in ["no_closed_positions", "only_wins", "only_losses", "wins_and_losses", "exact_break_even", "engine_trading_summary", "several_instruments_with_history", "tear_sheet_generator_direct"] {
+        for c in ["no_closed_positions", "only_wins", "only_losses", "wins_and_losses", "exact_break_even", "engine_trading_summary", "several_instruments_with_history", "tear_sheet_generator_direct", "generator_reset_after_a_session_with_a_loss_and_used_again"] {
             report.require(c);
         }
     }
